@@ -84,6 +84,16 @@ def damage(rng, db, ents, v, kind):
         del x[hi - n:hi]
     elif kind == 'empty':
         del x[s:hi]
+    elif kind == 'longname':
+        # the path separators of a long nested path overwritten and its intra-ecc destroyed: the path field now reads as ONE name
+        # longer than any file system accepts (NAME_MAX 255); the tool must treat it like any other unrecoverable path
+        p0, p1 = s, e['d'][0]
+        for i in range(p0, p1):
+            if x[i] == 0x2f:
+                x[i] = 0x5f
+        q0, q1 = e['d'][1] + 5, e['d'][2]
+        for i in range(q0, q1):
+            x[i] = rng.choice(b'abcdefghijklmnopqrstuvwxyz0123456789')
     elif kind == 'clone':
         # the victim's bytes (after its marker) are overwritten with the bytes found at the same offsets of ANOTHER entry: the victim
         # now decodes to that entry's path and size; the other entry itself is untouched and must still be processed as before
@@ -233,6 +243,10 @@ CORPUS = [
     {'tool': 'header', 'P': {'mb': 40, 'size': 64}, 'files': {'a.txt': '11' * 300, 'b.txt': '22' * 500, 'c.txt': '33' * 200}, 'victim': 1, 'kind': 'empty', 'dseed': 1},
     {'tool': 'header', 'P': {'mb': 7, 'size': 10}, 'files': {'a.txt': '11' * 30, 'b.txt': '22' * 50}, 'victim': 0, 'kind': 'size', 'dseed': 5},
     {'tool': 'whole', 'P': {'mb': 4, 'size': 10}, 'files': {'a.txt': '11' * 30, 'b.txt': '22' * 50}, 'victim': 1, 'kind': 'delim', 'dseed': 7},
+    {'tool': 'header', 'P': {'mb': 40, 'size': 64}, 'files': {'d' * 150 + '/' + 'e' * 150: '31' * 60, 'zz/z_last.bin': '32' * 300}, 'victim': 0, 'kind': 'longname', 'dseed': 9,
+     'in_damage': {'zz/z_last.bin': [[5, 7]]}},
+    {'tool': 'whole', 'P': {'mb': 40, 'size': 64}, 'files': {'d' * 150 + '/' + 'e' * 150: '31' * 60, 'zz/z_last.bin': '32' * 300}, 'victim': 0, 'kind': 'longname', 'dseed': 9,
+     'in_damage': {'zz/z_last.bin': [[5, 7]]}},
 ]
 
 
